@@ -41,8 +41,8 @@ func (e *Engine) VerifyLemma(lem *Lemma, sp *ssa.Package) (res *FnResult) {
 	fv.q.declareConst("alloc0", "Int")
 	fv.q.assume("(> alloc0 0)")
 	st.alloc = "alloc0"
-	fv.entry = st
-	ce := fv.newCEnv(fv.names, st, st)
+	fv.entry = st.clone() // old(e) in a lemma = the state before any `call`
+	ce := fv.newCEnv(fv.names, st, fv.entry)
 	if sp != nil {
 		ce.pkg = sp.Pkg
 	}
@@ -57,15 +57,16 @@ func (e *Engine) VerifyLemma(lem *Lemma, sp *ssa.Package) (res *FnResult) {
 		}
 		fv.names[v.Name] = fv.freshVal("v."+v.Name, t, st)
 	}
-	for _, h := range lem.Hyps {
-		for _, p := range ce.evalClause(h) {
-			fv.q.assume(p.term)
-		}
-	}
 	fv.lemmaMode = true
 	fv.reach[nil] = "true"
-	for _, c := range lem.Calls {
-		fv.lemmaCall(ce, c, st)
+	for _, s := range lem.Steps {
+		if s.Hyp != nil {
+			for _, p := range ce.evalClause(*s.Hyp) {
+				fv.q.assume(p.term)
+			}
+		} else {
+			fv.lemmaCall(ce, s.Call, st)
+		}
 	}
 	fv.probe("pre-sat", "", "")
 	for _, c := range lem.Concl {
